@@ -25,7 +25,16 @@ public:
         for (auto&& elem : thread_info_table_) {
             if (elem.gain_the_right()) {
                 YAKUSHIMA_VERIF_HOOK(YAKUSHIMA_VERIF_LOAD, nullptr);
-                elem.set_begin_epoch(epoch_management::get_epoch());
+                // Publish the epoch this session starts in, then re-read the global epoch: if it moved
+                // between the read and the publication the session would be registered with a stale
+                // epoch (objects it retires would be tagged too old and could be reclaimed while other
+                // sessions still use them). Repeat until the published value is the current epoch.
+                for (;;) {
+                    const Epoch cur_epoch = epoch_management::get_epoch();
+                    elem.set_begin_epoch(cur_epoch);
+                    std::atomic_thread_fence(std::memory_order_seq_cst);
+                    if (cur_epoch == epoch_management::get_epoch()) { break; }
+                }
                 YAKUSHIMA_VERIF_EVENT(YAKUSHIMA_VERIF_EV_ENTER, &(elem), 0);
                 token = &(elem);
                 return status::OK;
